@@ -319,12 +319,15 @@ func (x *Exec) applyContract(s *State, con *Contract, names []string, args []Val
 				vars[n] = v
 			}
 			for _, c := range con.Ensures {
-				if c.Local {
+				if c.Local || !x.wants(c) {
 					continue
 				}
 				post.assumeClause(c)
 			}
 			for _, c := range con.Assumed {
+				if !x.wants(c) {
+					continue
+				}
 				post.assumeClause(c)
 			}
 		}
@@ -677,6 +680,7 @@ func (x *Exec) copyOp(s *State, in ssa.Instruction, args []Value, result ssa.Val
 		slen = src.F[2].S
 	}
 	n := ite(app("<=", dst.F[2].S, slen), dst.F[2].S, slen)
+	oldHeapForCopy := s.heap.clone()
 	for _, l := range ls {
 		key := prefix + l.Path
 		x.frameCheck(s, key, dst.F[0].S, in)
@@ -691,6 +695,18 @@ func (x *Exec) copyOp(s *State, in ssa.Instruction, args []Value, result ssa.Val
 			}
 		}
 		s.writeWhole(key, dst.F[0].S, na)
+	}
+	if b, ok := st.Elem().Underlying().(*types.Basic); ok && (b.Kind() == types.Uint8 || b.Kind() == types.Byte) {
+		// content strings: the first n bytes come from the source, the rest stays
+		var srcStr string
+		if kindOf(src.T) == kStr {
+			srcStr = src.S
+		} else {
+			srcStr = x.bytesStr(s, oldHeapForCopy, src)
+		}
+		oldStr := x.bytesStr(s, oldHeapForCopy, dst)
+		newStr := x.bytesStr(s, s.heap, dst)
+		s.assume(eq(newStr, app("str.++", app("str.substr", srcStr, "0", n), app("str.substr", oldStr, n, app("-", dst.F[2].S, n)))))
 	}
 	x.setResult(s, result, Value{T: tInt, S: n})
 }
@@ -747,4 +763,24 @@ func (x *Exec) akeyOf(s *State, hp *Heap, v Value) string {
 	tx = ite(eq(typ, "3"), tx, "\"\"")
 	bl = ite(eq(typ, "4"), bl, "\"\"")
 	return ite(eq(v.F[0].S, tag), app("akey_sqlite", typ, in, re, tx, bl), gen)
+}
+
+
+// wants: a postcondition labelled "on-<opt>.<name>" is a heavy (quantified)
+// fact that only some callers need: it is assumed at a call site only when the
+// calling function's contract declares "option <opt>". It is proved (or, in a
+// trusted file, listed as assumed) like any other clause.
+func (x *Exec) wants(c Clause) bool {
+	if !strings.HasPrefix(c.Label, "on-") {
+		return true
+	}
+	k := strings.Index(c.Label, ".")
+	if k < 0 {
+		return true
+	}
+	if x.con == nil {
+		return false
+	}
+	_, ok := x.con.Options[c.Label[3:k]]
+	return ok
 }
